@@ -243,3 +243,19 @@ Example ex_sanitize :
    [(["me"; "friend"], "Human", "id"); (["me"], "Human", "id"); (["beings"], "Pet", "id");
     (["beings"], "Human", "__typename"); (["beings"], "Pet", "__typename")]).
 Proof. vm_compute. reflexivity. Qed.
+
+(* the selection the sanitizer leaves for a field of an abstract type asks for __typename on that very level: every
+   object there — of whatever possible type — comes back with it (the hypothesis of C13's scrub theorem, at the places
+   where a field of a union or interface type is selected) *)
+Lemma abstract_selection_has_typename tm sc ss t :
+  kind_of sc t <> KOther -> has_direct (fst (add_scrub_fields tm sc ss t)) "__typename" = true.
+Proof.
+  intros Hk. unfold add_scrub_fields.
+  assert (Ha : (match kind_of sc t with KOther => false | _ => true end) = true) by (destruct (kind_of sc t); [reflexivity|reflexivity|contradiction]).
+  rewrite Ha. cbn [andb].
+  destruct (has_direct ss "__typename") eqn:E; cbn [negb].
+  - match goal with |- context [if negb ?b then _ else _] => destruct (negb b) end; cbn [fst]; [exact E|].
+    destruct (contains ss "id"); cbn [fst]; [exact E|]. cbn [has_direct existsb id_helper]. cbn. exact E.
+  - match goal with |- context [if negb ?b then _ else _] => destruct (negb b) end; cbn [fst]; [reflexivity|].
+    destruct (contains (typename_helper :: ss) "id"); cbn [fst]; reflexivity.
+Qed.
